@@ -1,7 +1,8 @@
 """C19 - a run touches nothing outside its output directory (and graph directory).
 
 What happens on every run
-  prove      : translate/c19.py regenerates Generated/C19.lean from the repo, `lake build`, axiom audit.
+  prove      : translate/c19.py regenerates Generated/C19.lean - the decisions of the write-out are observed by probes of
+               the real code (harness/c19_probe.py), not read off its spelling -, `lake build`, axiom audit.
   micro      : `norm`, `ident`, `parents` of the Lean model against os.path.normpath,
                NameSelector.get_name and pathlib's `parents` on random inputs (exact);
                micro/guard: the containment decision of PagetreePage.writeout for copy_subdir items (real method
@@ -12,7 +13,8 @@ What happens on every run
                the old output directory x copy_subdir items landing next to the output directory;
                the real FORD runs in-process under one global `sys.addaudithook` recorder;
                (a) correspondence: canonicalised sequence of mutating attempts == the model's `run`
-                   (exact, ordered; consecutive `utime` runs sorted), model O/G == FORD's == realpath;
+                   (exact; ordered up to the order of attempts in different sub-trees, `canon_order`),
+                   model O/G == FORD's == realpath;
                (b) property oracle on the real code (independent of the model): every mutating attempt
                    lies physically under O or G (or creates a missing ancestor of them, or is a mkdir of
                    something that already exists = no effect); content-hash + mtime + mode snapshot of
@@ -121,6 +123,9 @@ def _hook(ev, args):
         return
     try:
         rec.busy = True
+        raw_cb = getattr(rec, "on_raw", None)  # probes (harness/c19_probe.py) also look at `shutil.copytree` calls
+        if raw_cb is not None:
+            raw_cb(ev, args)
         if ev == "open":
             p, _mode, flags = args
             if isinstance(p, int) or not isinstance(flags, int) or not (flags & _WRITE_FLAGS):
@@ -830,6 +835,76 @@ def sort_utime_runs(prims: list[str]) -> list[str]:
     return res + sorted(run)
 
 
+def _prim(prim: str):
+    k, _, p = prim.partition(" ")
+    return k, p
+
+
+def dependent(a: str, b: str) -> bool:
+    """Two attempts whose order matters: one path is the other or an ancestor of it (attempts in different
+    sub-trees commute; so do two `utime`s wherever they are; a spawned process is ordered with everything)."""
+    ka, pa = _prim(a)
+    kb, pb = _prim(b)
+    if ka == "spawn" or kb == "spawn":
+        return True
+    if ka == "utime" and kb == "utime":
+        return False
+    A, B = pa.split("/"), pb.split("/")
+    n = min(len(A), len(B))
+    return A[:n] == B[:n]
+
+
+def canon_order(prims: list[str]) -> list[str]:
+    """The attempt sequence up to the order of independent attempts (`dependent`): its Foata normal form - every
+    attempt gets the level 1 + the highest level of an earlier attempt it depends on, the result is sorted by
+    (level, kind, path).  Two sequences have the same normal form iff one can be turned into the other by swapping
+    adjacent independent attempts: re-ordering independent statements of the write-out (the user style sheet before the
+    favicon, one table of names in another order) is not a difference, re-ordering attempts on the same path or on a
+    directory and something below it is.  Subsumes the sorting of `utime` runs (`Path.rglob` order)."""
+    own: dict = {}  # path -> (highest level of a non-utime attempt, of any attempt) exactly there
+    sub: dict = {}  # ... there or below
+    out = []
+    top = barrier = 0
+    for prim in prims:
+        k, p = _prim(prim)
+        parts = None if k == "spawn" else tuple(p.split("/"))
+        ut = k == "utime"
+        if parts is None:
+            lvl = top
+        else:
+            lvl = barrier
+            for i in range(1, len(parts) + 1):
+                o = own.get(parts[:i])
+                if o:
+                    lvl = max(lvl, o[0] if ut else o[1])
+            s_ = sub.get(parts)
+            if s_:
+                lvl = max(lvl, s_[0] if ut else s_[1])
+        lvl += 1
+        top = max(top, lvl)
+        if parts is None:
+            barrier = lvl
+        else:
+            o = own.get(parts, (0, 0))
+            own[parts] = (o[0] if ut else max(o[0], lvl), max(o[1], lvl))
+            for i in range(1, len(parts) + 1):
+                s_ = sub.get(parts[:i], (0, 0))
+                sub[parts[:i]] = (s_[0] if ut else max(s_[0], lvl), max(s_[1], lvl))
+        out.append((lvl, k, p))
+    return [f"{k} {p}" for _l, k, p in sorted(out)]
+
+
+def trace_prefix(real: list[str], model: list[str]) -> bool:
+    """is `real` the beginning of a sequence that equals `model` up to the order of independent attempts?"""
+    rem = list(model)
+    for r in real:
+        j = next((j for j, m in enumerate(rem) if m == r), None)
+        if j is None or any(dependent(rem[i], r) for i in range(j)):
+            return False
+        del rem[j]
+    return True
+
+
 # ----------------------------------------------------------------------------------------------
 # oracle (defined from the property statement, not from the model)
 # ----------------------------------------------------------------------------------------------
@@ -999,7 +1074,13 @@ def gen_scenarios(rng: random.Random, n: int) -> list[dict]:
         elif k >= len(outs) and rng.random() < 0.4:
             # several source directories; one two levels above the project file, holding file names that occur
             # twice in it and once more in ./src
-            src = rng.choice([["./src", "../lib"], ["./src", "../../far/lib2"], ["../../far/lib2"], ["../../far/lib2/sub", "./src"]])
+            far = rng.choice([["./src", "../lib"], ["./src", "../../far/lib2"], ["../../far/lib2"], ["../../far/lib2/sub", "./src"]])
+            # not for the refusing placements: without `./src` the run is not refused and the output directory is the
+            # project directory (or above it) - page_dir and the project file inside the output directory, which the
+            # property excludes ("provided the inputs are not themselves placed inside the output directory"; met in
+            # the thorough tier in round 5: the model, which does not read inputs below O, had no pages)
+            if out not in REFUSING:
+                src = far
         graph = rng.random() < 0.6
         scn = {
             "id": k, "out": out, "src": src,
@@ -1586,7 +1667,7 @@ def run(tier: str, seed: int, replay: str | None = None) -> int:
         fault_runs = []
         cands = [r for r in runs if not r["scn"].get("regen") and r["scn"]["out"] not in REFUSING and r["res"]["exc"] is None]
         cands.sort(key=lambda r: -len(r["rec"].events))
-        budget_s = 30 if tier == "quick" else 900
+        budget_s = 20 if tier == "quick" else 900
         t_f = time.time()
         picks = cands[:1] + [c for c in cands if c["scn"]["pages"] in ("escape", "simple")][:2] if cands else []
         seen_ids = set()
@@ -1615,7 +1696,7 @@ def run(tier: str, seed: int, replay: str | None = None) -> int:
             rng.shuffle(idx)  # quick tier: as many as fit into the budget, a different selection per seed
             t_f = time.time()
             for n in idx:
-                if time.time() - t_f > (8 if tier == "quick" else 300):
+                if time.time() - t_f > (6 if tier == "quick" else 300):
                     break
                 fr = run_scenario(allr["scn"], base, tables, fault_at=n, reuse=allr["lay"])
                 fr["fault_at"] = n
@@ -1677,9 +1758,25 @@ def run(tier: str, seed: int, replay: str | None = None) -> int:
                     case["unexpected_exception"] = res.get("trace", res["exc"])
                 mps = [sort_utime_runs(m[4:]) for m in models]
                 crashed = res["exc"] is not None and not refused_real
-                # a run that ends with an exception inside the write-out (e.g. `mkdir` of a page directory whose parent
-                # has not been created) must have made a prefix of the attempts of the model's run
-                hit = [i for i, mp in enumerate(mps) if (real == mp[:len(real)] if crashed else real == mp)]
+                # compared up to the order of independent attempts (canon_order); a run that ends with an exception
+                # inside the write-out (e.g. `mkdir` of a page directory whose parent has not been created) must have
+                # made a prefix of the attempts of the model's run
+                if crashed:
+                    hit = [i for i, mp in enumerate(mps) if real == mp[:len(real)]
+                           or (not os.environ.get("C19_EXACT_ORDER") and trace_prefix(real, mp))]
+                else:
+                    hit = [i for i, mp in enumerate(mps) if real == mp]
+                    if not hit and not os.environ.get("C19_EXACT_ORDER"):  # (debugging aid: insist on the model's order)
+                        creal, seen_mp = canon_order(real), {}
+                        for i, mp in enumerate(mps):
+                            key = id(mp) if len(real) != len(mp) else tuple(mp)
+                            if key not in seen_mp:
+                                seen_mp[key] = len(real) == len(mp) and creal == canon_order(mp)
+                            if seen_mp[key]:
+                                hit.append(i)
+                    if hit and all(real != mps[i] for i in hit):
+                        hist["outcome"]["ok: attempts equal the model's up to the order of independent ones"] = \
+                            hist["outcome"].get("ok: attempts equal the model's up to the order of independent ones", 0) + 1
                 if hit:
                     if crashed:
                         hist["outcome"]["error: attempts are a prefix of the model's"] = \
@@ -1693,9 +1790,13 @@ def run(tier: str, seed: int, replay: str | None = None) -> int:
                     n_corr_bad += 1
                     mp = mps[1] if len(mps) > 1 else mps[0]
                     dif = next((i for i, (a, b) in enumerate(zip(real, mp)) if a != b), min(len(real), len(mp)))
+                    from collections import Counter
+                    cr, cm = Counter(real), Counter(mp)
                     rep.tie_broken(f"correspondence trace: scenario {scn['id']} differs at attempt {dif}: implementation "
-                                   f"{real[dif:dif + 2]} vs model {mp[dif:dif + 2]} (lengths {len(real)}/{len(mp)})",
+                                   f"{real[dif:dif + 2]} vs model {mp[dif:dif + 2]} (lengths {len(real)}/{len(mp)}; not a mere "
+                                   f"re-ordering of independent attempts)",
                                    dict(case, impl=real[max(0, dif - 3):dif + 4], model=mp[max(0, dif - 3):dif + 4],
+                                        only_impl=sorted((cr - cm).elements())[:6], only_model=sorted((cm - cr).elements())[:6],
                                         pages_of_the_run=res.get("pages")))
                 if len(samples) < 3 and scn["pages"] != "none" and real:
                     samples.append({"scenario": scn, "n_attempts": len(real), "first": real[:4], "last": real[-3:]})
